@@ -467,6 +467,142 @@ theorem holdsSrecv_model (self sess : Nat) (g : Group) (seats : List Nat) (evs :
       rw [getD_map_range _ _ 10 k hk10]
       simp
 
+/-! ## the real-run monitors accept the model's predicted outcome (under A-tss) -/
+
+theorem opOf_nodup (n : Nat) (excl : List Nat) : (opOf n excl).Nodup :=
+  List.nodup_iff_pairwise_ne.2
+    (((List.pairwise_lt_range' (s := 1) (n := n)).sublist List.filter_sublist).imp
+      (fun h => Nat.ne_of_lt h))
+
+theorem sKey_mem (ks : List Nat) (f : Nat) (h1 : 1 ≤ f) (h2 : f ≤ ks.length) : sKey ks f ∈ ks := by
+  have hk : f - 1 < ks.length := by omega
+  unfold sKey
+  rw [List.getD_eq_getElem?_getD, List.getElem?_eq_getElem hk, Option.getD_some]
+  exact List.getElem_mem hk
+
+theorem sKey_inj (ks : List Nat) (hn : ks.Nodup) (f g : Nat) (hf1 : 1 ≤ f) (hf2 : f ≤ ks.length)
+    (hg1 : 1 ≤ g) (hg2 : g ≤ ks.length) (h : sKey ks f = sKey ks g) : f = g := by
+  have hf : f - 1 < ks.length := by omega
+  have hg : g - 1 < ks.length := by omega
+  unfold sKey at h
+  rw [List.getD_eq_getElem?_getD, List.getElem?_eq_getElem hf, Option.getD_some,
+    List.getD_eq_getElem?_getD, List.getElem?_eq_getElem hg, Option.getD_some] at h
+  have a := hn.idxOf_getElem (f - 1) hf
+  have b := hn.idxOf_getElem (g - 1) hg
+  rw [h] at a
+  omega
+
+theorem length_storedKeys (seed : Nat) (operating : List Nat) :
+    (storedKeys seed operating).length = operating.length := by
+  rw [storedKeys_eq, List.length_map, length_isort]
+
+/-- verdict of one signing attempt by the final member indexes `S` (A-tss: `TssSigning`) -/
+def sigVerdict (tss : TssSigning) [∀ ks msg sg, Decidable (tss.verifies ks msg sg)]
+    (ks : List Nat) (msg : Nat) (S : List Nat) : Bool :=
+  decide (tss.verifies ks msg (tss.sign ks (S.map (sKey ks)) msg))
+    && decide ((tss.sign ks (S.map (sKey ks)) msg).s ≤ tss.halfN)
+
+/-- the model's prediction of a `sign` run -/
+def modelSign (tss : TssSigning) [∀ ks msg sg, Decidable (tss.verifies ks msg sg)]
+    (seed n t : Nat) (excl : List Nat) (subsets : List (List Nat)) (msg : Nat) : SignObs :=
+  let op := opOf n excl
+  let ks := storedKeys seed op
+  { dkgOk := decide (t ≤ op.length)
+    ksOk := op.all fun m => sKey ks (finalIndex op m) == toKey seed m
+    sigs := subsets.map (sigVerdict tss ks msg) }
+
+/-- a quorum of final member indexes: distinct, inside the final group, at least the honest threshold -/
+def Quorum (k t : Nat) (S : List Nat) : Prop := S.Nodup ∧ (∀ f ∈ S, 1 ≤ f ∧ f ≤ k) ∧ t ≤ S.length
+
+theorem sigVerdict_true (tss : TssSigning) [∀ ks msg sg, Decidable (tss.verifies ks msg sg)]
+    (seed t msg : Nat) (operating S : List Nat) (hop : operating.Nodup) (ht1 : 1 ≤ t)
+    (hS : Quorum operating.length t S) :
+    sigVerdict tss (storedKeys seed operating) msg S = true := by
+  obtain ⟨hnd, hr, hlen⟩ := hS
+  have hks := storedKeys_nodup seed operating hop
+  have hl := length_storedKeys seed operating
+  have := tss.spec (storedKeys seed operating) (S.map (sKey (storedKeys seed operating))) (t - 1) msg
+    (by
+      rw [List.nodup_iff_pairwise_ne, List.pairwise_map]
+      exact (List.nodup_iff_pairwise_ne.1 hnd).imp_of_mem (fun {a b} ha hb hab e =>
+        hab (sKey_inj _ hks a b (hr a ha).1 (by rw [hl]; exact (hr a ha).2) (hr b hb).1
+          (by rw [hl]; exact (hr b hb).2) e)))
+    (by
+      intro k hk
+      obtain ⟨f, hf, rfl⟩ := List.mem_map.1 hk
+      exact sKey_mem _ f (hr f hf).1 (by rw [hl]; exact (hr f hf).2))
+    (by rw [List.length_map]; omega)
+  simp [sigVerdict, this.1, this.2]
+
+/-- **holdsSign_model_under_A_tss**: for every group size, exclusion set that leaves the honest
+    threshold, seed, message and every list of quorums of the final group, the `sign` monitor accepts
+    the outcome the model predicts under A-tss. -/
+theorem holdsSign_model_under_A_tss (tss : TssSigning) [∀ ks msg sg, Decidable (tss.verifies ks msg sg)]
+    (seed n t : Nat) (excl : List Nat) (subsets : List (List Nat)) (msg : Nat)
+    (ht : t ≤ (opOf n excl).length) (ht1 : 1 ≤ t)
+    (hq : ∀ S ∈ subsets, Quorum (opOf n excl).length t S) :
+    holdsSign (modelSign tss seed n t excl subsets msg) = true := by
+  unfold holdsSign modelSign
+  simp only [Bool.and_eq_true, decide_eq_true_eq, List.all_eq_true, List.mem_map, beq_iff_eq, id]
+  refine ⟨⟨ht, fun m hm => final_index_matches_dkg_identity seed _ m hm⟩, ?_⟩
+  rintro _ ⟨S, hS, rfl⟩
+  exact sigVerdict_true tss seed t msg _ S (opOf_nodup n excl) ht1 (hq S hS)
+
+/-- the model's prediction of a `wsign` run: the retry loop picks SOME quorum `included` of the
+    final group (the selection is seeded randomness — a parameter) -/
+def modelWsign (tss : TssSigning) [∀ ks msg sg, Decidable (tss.verifies ks msg sg)]
+    (seed n t : Nat) (excl : List Nat) (included : List Nat) (msg : Nat) : WsignObs :=
+  { dkgOk := decide (t ≤ (opOf n excl).length)
+    sigOk := sigVerdict tss (storedKeys seed (opOf n excl)) msg included }
+
+/-- **holdsWsign_model_under_A_tss**: whichever quorum of the final group the signing executor
+    selects, the `wsign` monitor accepts the predicted outcome. -/
+theorem holdsWsign_model_under_A_tss (tss : TssSigning) [∀ ks msg sg, Decidable (tss.verifies ks msg sg)]
+    (seed n t : Nat) (excl : List Nat) (included : List Nat) (msg : Nat)
+    (ht : t ≤ (opOf n excl).length) (ht1 : 1 ≤ t) (hq : Quorum (opOf n excl).length t included) :
+    holdsWsign (modelWsign tss seed n t excl included msg) = true := by
+  unfold holdsWsign modelWsign
+  simp only [Bool.and_eq_true, decide_eq_true_eq]
+  exact ⟨ht, sigVerdict_true tss seed t msg _ included (opOf_nodup n excl) ht1 hq⟩
+
+/-- **any_honest_quorum_signs** (C08 as stated, over the model, under A-tss): for every group size,
+    exclusion set at key generation, seed and message, and every subset `S` of the final signing
+    group with at least the honest threshold of distinct members: the signature produced by the
+    parties they derive from their STORED member indexes verifies under the wallet key and has a
+    low `s`; and every stored index used is the final index of exactly one operating key-generation
+    member, whose key-generation party key it selects from the stored keys. -/
+theorem any_honest_quorum_signs (tss : TssSigning) (seed n t : Nat) (excl : List Nat) (msg : Nat)
+    (S : List Nat) (ht1 : 1 ≤ t) (hq : Quorum (opOf n excl).length t S) :
+    let op := opOf n excl
+    let ks := storedKeys seed op
+    let sg := tss.sign ks (S.map (sKey ks)) msg
+    tss.verifies ks msg sg ∧ sg.s ≤ tss.halfN ∧
+      ∀ f ∈ S, ∃ m ∈ op, finalIndex op m = f ∧ sKey ks f = toKey seed m ∧
+        ∀ m' ∈ op, finalIndex op m' = f → m' = m := by
+  intro op ks sg
+  obtain ⟨hnd, hr, hlen⟩ := hq
+  have hop := opOf_nodup n excl
+  have hks := storedKeys_nodup seed op hop
+  have hl := length_storedKeys seed op
+  have hspec := tss.spec ks (S.map (sKey ks)) (t - 1) msg
+    (by
+      rw [List.nodup_iff_pairwise_ne, List.pairwise_map]
+      exact (List.nodup_iff_pairwise_ne.1 hnd).imp_of_mem (fun {a b} ha hb hab e =>
+        hab (sKey_inj _ hks a b (hr a ha).1 (by rw [hl]; exact (hr a ha).2) (hr b hb).1
+          (by rw [hl]; exact (hr b hb).2) e)))
+    (by
+      intro k hk
+      obtain ⟨f, hf, rfl⟩ := List.mem_map.1 hk
+      exact sKey_mem _ f (hr f hf).1 (by rw [hl]; exact (hr f hf).2))
+    (by rw [List.length_map]; omega)
+  refine ⟨hspec.1, hspec.2, ?_⟩
+  intro f hf
+  obtain ⟨m, hm, hfm⟩ := final_index_surjective op hop f (hr f hf).1 (hr f hf).2
+  refine ⟨m, hm, hfm, ?_, ?_⟩
+  · rw [← hfm]; exact final_index_matches_dkg_identity seed op m hm
+  · intro m' hm' h'
+    exact final_index_injective op m' m hm' hm (by rw [h', hfm])
+
 example : finalSigningGroup 5 3 [10, 20, 30, 40, 50] [5, 1, 3] =
     some ([10, 30, 50], [(1, 1), (3, 2), (5, 3)]) := by decide
 example : storedKeys 1000 [5, 1, 3] = [1001, 1003, 1005] := by decide
